@@ -70,10 +70,18 @@ func slice(slice []interface{}, parts []sliceParam) ([]interface{}, error) {
 	if step > 0 {
 		for i := start; i < stop; i += step {
 			result = append(result, slice[i])
+			if stop-i <= step {
+				// The next index would not be below stop; leaving here
+				// also keeps i += step from overflowing.
+				break
+			}
 		}
 	} else {
 		for i := start; i > stop; i += step {
 			result = append(result, slice[i])
+			if stop-i >= step {
+				break
+			}
 		}
 	}
 	return result, nil
